@@ -40,7 +40,7 @@ Leak(n, D) ==
 LeafLow(n) == [ i \in LeafIds(n) |-> <<LeafLo(n, i), LeafLo(n, i)>> ]
 Handles == {"h1", "h2"}
 Dicts(n) == {LeafLow(n)} \cup { LeafLow(n) @@ (c :> v) : c \in CompIds(n), v \in DictVals }
-QueryOps == {"evaluate", "evaluate_all", "assume", "reduce", "negate", "errors", "to_json", "to_b64", "to_poly", "flatten"}
+QueryOps == {"evaluate", "evaluate_all", "assume", "reduce", "negate", "errors", "to_json", "to_b64", "to_poly", "flatten", "flags"}
 CfgOps == {"cfg_poly", "default_prios", "leafs", "select"}
 IsCfg(n) == ~IsAtom(n) /\ n.cls = "StingyConfigurator"
 
